@@ -1564,7 +1564,7 @@ def rule_fold(rows, prop):
         elif fn == "nmtools::view::accumulate_t::operator()":
             n += 1
             okc = True; why = ""
-            if locs.get("start") != "((%i == this.axis) ? 0 : %s)" or locs.get("stop") != "(%s + 1)" or locs.get("s") != "at(%indices_,%i)":
+            if not re.fullmatch(r"\(\(%i == (?:this\.|%)\w*axis\w*\) \? 0 : %s\)", locs.get("start", "")) or locs.get("stop") != "(%s + 1)" or locs.get("s") != "at(%indices_,%i)":
                 okc = False; why = "prefix slice is [%s, %s) with s = %s; expected [i==axis ? 0 : s, s+1) with s = result index i" % (locs.get("start"), locs.get("stop"), locs.get("s"))
             asg = [f for f in facts if f["k"] == "assign" and f["a"] == "at(%slices,%i)"]
             if okc and (len(asg) != 1 or asg[0]["b"] != "{%start,%stop}"):
